@@ -121,7 +121,7 @@ fn closure_family() -> Vec<gen::Program> {
                     _ => vec![Node::With(vec![(name, s(val))], vec![Node::Out(v(name))])],
                 }
             };
-            for wrap in 0..13 {
+            for wrap in 0..16 {
                 let rd = || Node::Out(v(name));
                 let with_read = |mut b: Vec<Node>| {
                     b.push(Node::Text("<"));
@@ -142,10 +142,20 @@ fn closure_family() -> Vec<gen::Program> {
                     9 => vec![Node::SetBlock("q", with_read(a("i")))],
                     10 => vec![Node::AutoEscape(true, with_read(a("i")))],
                     11 => vec![Node::If(v("c"), vec![Node::If(v("c"), a("i"), None)], None)],
-                    _ => vec![Node::If(E::Not(Box::new(v("c"))), vec![], Some(vec![Node::If(v("c"), a("i"), Some(a("j")))]))],
+                    12 => vec![Node::If(E::Not(Box::new(v("c"))), vec![], Some(vec![Node::If(v("c"), a("i"), Some(a("j")))]))],
+                    // the else body of a loop runs after the loop's scope is gone: names bound by the
+                    // loop (target, assignments in the body) are the outer ones again
+                    13 => vec![Node::For { targets: vec![name], iter: cond_list(), filter: None, recursive: false, body: vec![Node::Text("{"), rd(), Node::Text("}")], else_: Some(vec![Node::Text("("), rd(), Node::Text(")")]) }],
+                    14 => vec![Node::For { targets: vec!["q"], iter: cond_list(), filter: None, recursive: false, body: with_read(a("i")), else_: Some(vec![Node::Text("("), rd(), Node::Text(")")]) }],
+                    _ => vec![Node::For { targets: vec![name], iter: E::List(vec![E::Int(1), E::Int(2)]), filter: Some(v("c")), recursive: false, body: with_read(a("i")), else_: Some(vec![Node::Text("("), rd(), Node::Text(")")]) }],
                 };
+                // with and without a read after the construct: a later read makes the name free in the
+                // whole body, which can mask what the construct alone does to the closure
+                for tail in [true, false] {
                 let mut body = w.clone();
-                body.extend([Node::Text("["), rd(), Node::Text("]")]);
+                if tail {
+                    body.extend([Node::Text("["), rd(), Node::Text("]")]);
+                }
                 for holder in 0..4 {
                     let mut nodes = vec![];
                     if outer_set {
@@ -193,6 +203,7 @@ fn closure_family() -> Vec<gen::Program> {
                     let mut pieces = vec![];
                     gen::to_pieces(&nodes, &mut pieces);
                     out.push(gen::Program { index: out.len() as u64, nodes, pieces });
+                }
                 }
             }
         }
@@ -330,7 +341,7 @@ pub fn main(args: Args) -> i32 {
             level: "exploration",
             tier: args.tier,
             seed: args.seed,
-            rule: format!("every program of the depth-1 and depth-2 spaces of G (single template, loop controls){} x 3 contexts rendered by the engine and by the reference interpreter R (independent tree walker over its own value type: scoping per construct, per-iteration loop scope, macro closures with definition-frame values, argument binding with defaults and keywords, call blocks, loop recursion, for-else, loop filters, unpacking, break/continue); oracle: identical output, or both fail; plus the loop object: every field (index, index0, revindex, revindex0, first, last, length, previtem, nextitem) printed in every iteration for 11 iterated sequence kinds x lengths 0..4 against directly computed values; plus the closure family (depth label d0): 4 name/outer-binding cases x 4 assignment forms x 13 enclosing constructs (bare, if/else arms taken and not, for/else with 0 or 1 iterations, with, filter, set block, autoescape, nested ifs) x 4 holders (macro called with both truth values, outer value changed after declaration, call block in a loop, macro in a macro), each reading the name inside and after the construct. distinct non-trivial = (program, context) pairs on which engine and reference agree on a successful render", if args.tier == Tier::Thorough { " and every 41st program of depth 3" } else { "" }),
+            rule: format!("every program of the depth-1 and depth-2 spaces of G (single template, loop controls){} x 3 contexts rendered by the engine and by the reference interpreter R (independent tree walker over its own value type: scoping per construct, per-iteration loop scope, macro closures with definition-frame values, argument binding with defaults and keywords, call blocks, loop recursion, for-else, loop filters, unpacking, break/continue); oracle: identical output, or both fail; plus the loop object: every field (index, index0, revindex, revindex0, first, last, length, previtem, nextitem) printed in every iteration for 11 iterated sequence kinds x lengths 0..4 against directly computed values; plus the closure family (depth label d0): 4 name/outer-binding cases x 4 assignment forms x 16 enclosing constructs (bare, if/else arms taken and not, for/else with 0 or 1 iterations, loop else bodies reading names the loop bound as target / in its body / under a rejecting filter, with, filter, set block, autoescape, nested ifs) x 4 holders (macro called with both truth values, outer value changed after declaration, call block in a loop, macro in a macro), each reading the name inside the construct and, in one of two variants, after it. distinct non-trivial = (program, context) pairs on which engine and reference agree on a successful render", if args.tier == Tier::Thorough { " and every 41st program of depth 3" } else { "" }),
             exhaustive: true,
             bound: json!({"depth_full": 2}),
             assumptions: vec![
